@@ -84,6 +84,7 @@ DFrameStep(m, E) ==
            \cup XIf(dynObs /\ ~E.aff /\ nbg1 > c.preview /\ m.prevBg # <<>> /\ E.bg # m.prevBg /\ ~ThreshOK(c, E.thresh, E.bg),
                     "C15:threshold-not-tracking")
            \cup XIf(~c.dyn /\ "thresh" \in DOMAIN E /\ E.thresh # c.T, "C07:fixed-threshold-moved")
+           \cup XIf(~c.dyn /\ "thresh" \in DOMAIN E /\ E.thresh # c.T, "C08:fixed-threshold-moved")
   IN [m EXCEPT !.v = v, !.hist = h1, !.prevD = D, !.everAff = @ \/ E.aff, !.prevAff = E.aff,
                !.pre = pre1, !.indep = indep1, !.periodEq = periodEq1,
                !.seeded = @ \/ ~E.aff, !.nbg = nbg1,
